@@ -266,8 +266,8 @@ fn stats_json(out: &mut String) {
     let st = memory::verif::stats();
     let _ = write!(
         out,
-        "{{\"bytes\":{},\"threshold\":{},\"objects\":{},\"sum_roots\":{},\"collections\":{},\"by_type\":[",
-        st.bytes_allocated, st.threshold, st.num_objects, st.sum_roots, st.collections
+        "{{\"bytes\":{},\"payload_bytes\":{},\"threshold\":{},\"objects\":{},\"sum_roots\":{},\"collections\":{},\"by_type\":[",
+        st.bytes_allocated, st.payload_bytes, st.threshold, st.num_objects, st.sum_roots, st.collections
     );
     for (i, (name, count, roots)) in st.by_type.iter().enumerate() {
         if i > 0 {
